@@ -73,6 +73,61 @@ alloc_ops!(u8);
 alloc_ops!(u16);
 alloc_ops!(u32);
 
+/// the same allocator over a SIGNED element type: the model's value v stands for the element v + T::MIN, so that the
+/// whole range of the type (negative values, the crossing of zero, distances larger than T::MAX) is covered
+macro_rules! alloc_ops_signed {
+    ($name:ident, $t:ty, $off:expr) => {
+        #[derive(Clone)]
+        pub struct $name(ValueAllocator<$t>);
+        impl $name {
+            fn to_t(v: u64) -> $t {
+                (v as i64 - $off) as $t
+            }
+            fn of_t(v: $t) -> u64 {
+                (v as i64 + $off) as u64
+            }
+        }
+        impl AllocOps for $name {
+            fn new(lo: u64, hi: u64) -> Self {
+                $name(ValueAllocator::<$t>::new(Self::to_t(lo), Self::to_t(hi)))
+            }
+            fn allocate(&mut self) -> Option<u64> {
+                self.0.allocate().map(Self::of_t)
+            }
+            fn first_vacant(&self) -> Option<u64> {
+                self.0.first_vacant().map(Self::of_t)
+            }
+            fn deallocate(&mut self, v: u64) {
+                self.0.deallocate(Self::to_t(v))
+            }
+            fn use_value(&mut self, v: u64) -> bool {
+                self.0.use_value(Self::to_t(v))
+            }
+            fn is_used(&self, v: u64) -> bool {
+                self.0.is_used(Self::to_t(v))
+            }
+            fn clear(&mut self) {
+                self.0.clear()
+            }
+            fn interval_count(&self) -> usize {
+                self.0.interval_count()
+            }
+            fn intervals(&self) -> Option<Vec<(u64, u64)>> {
+                #[cfg(feature = "hooks")]
+                {
+                    Some(self.0.verif_intervals().into_iter().map(|(a, b)| (Self::of_t(a), Self::of_t(b))).collect())
+                }
+                #[cfg(not(feature = "hooks"))]
+                {
+                    None
+                }
+            }
+        }
+    };
+}
+alloc_ops_signed!(SignedI8, i8, 128i64);
+alloc_ops_signed!(SignedI16, i16, 32768i64);
+
 #[derive(Clone, Copy, Debug, PartialEq, Eq)]
 enum Op {
     Allocate,
@@ -661,7 +716,7 @@ pub fn run(ctx: &Ctx) -> Report {
         depth: usize,
     }
     let mut jobs: Vec<Ex> = Vec::new();
-    for (ty, tmax) in [("u8", 255u64), ("u16", 65535), ("u32", u32::MAX as u64)] {
+    for (ty, tmax) in [("u8", 255u64), ("u16", 65535), ("u32", u32::MAX as u64), ("i8", 255), ("i16", 65535)] {
         for width in 0..=3u64 {
             // wider ranges get one level less so that the quick tier stays in seconds
             let d = if width == 3 { depth_small - 1 } else { depth_small };
@@ -671,6 +726,10 @@ pub fn run(ctx: &Ctx) -> Report {
             jobs.push(Ex { ty, lo: tmax - width, hi: tmax, depth: d });
             if ty == "u8" {
                 jobs.push(Ex { ty, lo: 100, hi: 100 + width, depth: d });
+            }
+            if ty == "i8" {
+                // around zero
+                jobs.push(Ex { ty, lo: 126, hi: 126 + width, depth: d });
             }
         }
     }
@@ -685,6 +744,8 @@ pub fn run(ctx: &Ctx) -> Report {
         let part = match j.ty {
             "u8" => exhaustive::<ValueAllocator<u8>>("u8", j.lo, j.hi, 255, j.depth, (1, i)),
             "u16" => exhaustive::<ValueAllocator<u16>>("u16", j.lo, j.hi, 65535, j.depth, (1, i)),
+            "i8" => exhaustive::<SignedI8>("i8", j.lo, j.hi, 255, j.depth, (1, i)),
+            "i16" => exhaustive::<SignedI16>("i16", j.lo, j.hi, 65535, j.depth, (1, i)),
             _ => exhaustive::<ValueAllocator<u32>>("u32", j.lo, j.hi, u32::MAX as u64, j.depth, (1, i)),
         };
         rep.merge(part);
@@ -695,7 +756,13 @@ pub fn run(ctx: &Ctx) -> Report {
     let r2 = run_cases(ctx, 2, n, "", |i, seed, rep| {
         let mut r = Rng::new(seed ^ 0x55);
         let nops = 1000;
-        match r.below(9) {
+        match r.below(12) {
+            9 => random_seq::<SignedI8>("i8", 0, 255, 255, nops, seed, (2, i), rep),
+            10 => random_seq::<SignedI16>("i16", 0, 65535, 65535, nops, seed, (2, i), rep),
+            11 => {
+                let lo = r.range(0, 200);
+                random_seq::<SignedI8>("i8", lo, r.range(lo, 255), 255, nops, seed, (2, i), rep)
+            }
             0 => random_seq::<ValueAllocator<u16>>("u16", 1, 65535, 65535, nops, seed, (2, i), rep),
             1 => random_seq::<ValueAllocator<u16>>("u16", 0, 65535, 65535, nops, seed, (2, i), rep),
             2 => random_seq::<ValueAllocator<u32>>("u32", 1, u32::MAX as u64, u32::MAX as u64, nops, seed, (2, i), rep),
